@@ -64,7 +64,7 @@ func (a Int16) ConvertConstScalar(t ScalarType) ConstScalar {
   case Int16Type:
     return a
   default:
-    return NewConstScalar(t, a.GetFloat64())
+    return convertConstScalar(a, t)
   }
 }
 func (a Int16) ConvertScalar(t ScalarType) Scalar {
